@@ -133,6 +133,7 @@ func IndexFromFile(ctx context.Context,
 		for chunk := range w.results {
 			// Assemble the list of chunks in the index
 			index.Chunks = append(index.Chunks, chunk)
+			verifTrace("take", w.offset, chunk.Start, chunk.Size)
 			pb.Set(int(chunk.Start + chunk.Size))
 			stats.incAccepted()
 		}
@@ -145,8 +146,10 @@ func IndexFromFile(ctx context.Context,
 		// stream can have been drained and skipped by its predecessor, so its eof
 		// flag alone doesn't mean the following buckets are empty.
 		if uint64(index.Length()) >= size {
+			verifTrace("stop", w.offset, 0, 0)
 			break
 		}
+		verifTrace("move", w.offset, 0, 0)
 	}
 	return index, stats, nil
 }
@@ -210,7 +213,9 @@ func (c *pChunker) start(ctx context.Context) {
 		// Store it in our bucket
 		chunk := IndexChunk{Start: start, Size: uint64(len(b)), ID: id}
 		verifYield("pchunk.send")
+		verifAtomicBegin()
 		c.results <- chunk
+		verifAtomicEnd("send", c.offset, chunk.Start, chunk.Size)
 		verifYield("pchunk.sync")
 
 		// Check if the next worker already has this chunk, at which point we stop
@@ -229,7 +234,9 @@ func (c *pChunker) start(ctx context.Context) {
 				nc := chunk
 				for i := 0; i < numNullChunks; i++ {
 					nc = IndexChunk{Start: nc.Start + nc.Size, Size: uint64(len(c.nullChunk.Data)), ID: c.nullChunk.ID}
+					verifAtomicBegin()
 					c.results <- nc
+					verifAtomicEnd("send", c.offset, nc.Start, nc.Size)
 					zeroes -= uint64(len(c.nullChunk.Data))
 				}
 			}
@@ -238,14 +245,20 @@ func (c *pChunker) start(ctx context.Context) {
 		// If the next worker has stopped and has no more chunks in its bucket,
 		// we want to skip that and try to sync with the one after
 		verifYield("pchunk.skip")
+		verifAtomicBegin()
 		if c.next != nil && !c.next.active() && len(c.next.results) == 0 {
 			c.next = c.next.next
+			verifAtomicEnd("skip", c.offset, 1, 0)
+		} else {
+			verifAtomicEnd("skip", c.offset, 0, 0)
 		}
 	}
 }
 
 func (c *pChunker) stop() {
+	verifAtomicBegin()
 	c.once.Do(func() { close(c.done) })
+	verifAtomicEnd("exit", c.offset, 0, 0)
 }
 
 func (c *pChunker) active() bool {
@@ -269,12 +282,16 @@ func (c *pChunker) syncWith(chunk IndexChunk) (bool, uint64) {
 		prev = c.sync
 		var ok bool
 		verifYield("pchunk.syncrecv")
+		verifAtomicBegin()
 		select {
 		case c.sync, ok = <-c.results:
 			if !ok {
+				verifAtomicEnd("empty", c.offset, 0, 0)
 				return false, 0
 			}
+			verifAtomicEnd("recv", c.offset, c.sync.Start, c.sync.Size)
 		default: // Nothing in my bucket? Move on
+			verifAtomicEnd("empty", c.offset, 0, 0)
 			return false, 0
 		}
 	}
@@ -298,12 +315,16 @@ func (c *pChunker) syncWith(chunk IndexChunk) (bool, uint64) {
 		for {
 			var ok bool
 			verifYield("pchunk.nullrecv")
+			verifAtomicBegin()
 			select {
 			case c.sync, ok = <-c.results:
 				if !ok {
+					verifAtomicEnd("empty", c.offset, 0, 0)
 					return false, n
 				}
+				verifAtomicEnd("recv", c.offset, c.sync.Start, c.sync.Size)
 			default: // Nothing more in my bucket? Move on
+				verifAtomicEnd("empty", c.offset, 0, 0)
 				return false, n
 			}
 			if c.sync.ID != c.nullChunk.ID { // Hit the end of the null chunks, stop here
